@@ -395,9 +395,17 @@ class FaultPoint(EngineBase):
                         V("C03.shape", "%s returned duplicates %r" %
                           (name, pl), ["dup"])
 
+        # a zombie that is reaped after the call: gone for good as well
+        if plan.get("then_reap") and target in final:
+            k.begin_op(1)
+            k.apply_event({"ev": "reap", "pid": target})
+            k.end_op()
+            snaps.append(k.snapshot())
+            final = snaps[-1]
         # gone stays gone
-        vanished_target = any(f["kind"] == "VANISH" and f["pid"] == target
-                              for f in faults) and target not in final
+        vanished_target = (any(f["kind"] == "VANISH" and f["pid"] == target
+                               for f in faults) or plan.get("then_reap")) \
+            and target not in final
         if vanished_target and plan.get("post", True):
             exe_cached = warm_exe_ok or (
                 name == "exe" and out[0] == "value") or p._exe is not None
@@ -494,8 +502,17 @@ class FaultPoint(EngineBase):
             for (kk, kind, arg, pid) in extra_deny:
                 for fk in ("EACCES", "EPERM"):
                     singles.append((kk, kind, arg, pid, fk))
+            for (kk, kind, arg, pid, fk) in list(singles):
+                if fk == "ZOMBIE" and pid == target and (kk + len(name)) % 3 \
+                        == 0:
+                    # the same, and the parent reaps the zombie right after
+                    # the call: every later query must say NoSuchProcess
+                    singles.append((kk, kind, arg, pid, "ZOMBIE+REAP"))
             for (kk, kind, arg, pid, fk) in singles:
-                plan = dict(base, faults=[{"k": kk, "kind": fk, "pid": pid}])
+                plan = dict(base, faults=[{"k": kk, "kind": fk.split("+")[0],
+                                           "pid": pid}])
+                if fk.endswith("+REAP"):
+                    plan["then_reap"] = True
                 r = W.execute_forked(plan)
                 u["evals"] += 1
                 if self._absorb(u, plan, r, (name, site_of(kind, arg, pid,
